@@ -51,7 +51,13 @@ TResetOut == IsEvent("ResetOut") /\ PResetOut(TargetOf(Row.p)) /\ TakeObs /\ UNC
 TResetBoth == IsEvent("ResetBoth") /\ PResetBoth(TargetOf(Row.p)) /\ TakeObs /\ UNCHANGED <<stalled, held>>
 TRefresh == IsEvent("Refresh") /\ PResetOut({Row.p}) /\ TakeObs /\ UNCHANGED <<stalled, held>>
 
-TraceNext == TSetImp \/ TSetExp \/ TResetIn \/ TResetOut \/ TResetBoth \/ TRefresh \/ TReset \/ TUp \/ TUpHold \/ TRelease \/ TDown \/ TAnn \/ TWd \/ TApiAdd \/ TApiDel
+(* C20: chaos operations (free-running mode) leave the property-layer state alone; the final
+   Health line carries what the run-time oracles saw *)
+TOp     == IsEvent("Op") /\ TakeObs /\ UNCHANGED <<up, inr, loc, polvars, stalled, held>>
+THealth == IsEvent("Health") /\ obs' = [health |-> Row] /\ hasObs' = FALSE /\ pobs' = obs
+           /\ UNCHANGED <<up, inr, loc, polvars, stalled, held>>
+
+TraceNext == TOp \/ THealth \/ TSetImp \/ TSetExp \/ TResetIn \/ TResetOut \/ TResetBoth \/ TRefresh \/ TReset \/ TUp \/ TUpHold \/ TRelease \/ TDown \/ TAnn \/ TWd \/ TApiAdd \/ TApiDel
              \/ TStall \/ TResume \/ TTick \/ TSettle
 TraceSpec == TraceInit /\ [][TraceNext]_tvars
 
@@ -117,7 +123,14 @@ C02_Counters ==
      /\ obs.ctr[p].received = Cardinality({x \in Prefixes : inr[p][x] # NoRoute})
      /\ obs.ctr[p].accepted = Cardinality({x \in Prefixes : Usable(inr[p][x])})
 
-TraceConstraint == Hwm(l) /\ NoteIf(C15_Nontrivial, <<"c15", up, inr, loc, polvars>>) /\ NoteIf(hasObs /\ \E x \in Prefixes : Cardinality(LocRibExpected(x)) >= 2
+(* C20: the run-time oracles of a concurrent execution, as recorded in its Health line *)
+HasHealth == "health" \in DOMAIN obs
+C20_NoDataRace  == HasHealth => obs.health.races = 0
+C20_NoGoroutineLeak == HasHealth => ~obs.health.leak
+C20_NoDeadlock  == HasHealth => ~obs.health.deadlock
+C20_CallsReturn == HasHealth => obs.health.stuck = 0
+
+TraceConstraint == Hwm(l) /\ NoteIf(HasHealth, <<"c20", l>>) /\ NoteIf(C15_Nontrivial, <<"c15", up, inr, loc, polvars>>) /\ NoteIf(hasObs /\ \E x \in Prefixes : Cardinality(LocRibExpected(x)) >= 2
                                      /\ \E p \in Peers : up[p],
                                     <<up, inr, loc, polvars, stalled, held>>)
 TraceAccepted == Accepted
